@@ -521,6 +521,11 @@ def concentric(ctx, col):
 # --------------------------------------------------------------------------- helpers
 
 
+def _F_(x):
+    from fractions import Fraction
+    return Fraction(x)
+
+
 def helpers(ctx, col):
     repo = ctx.repo
     R_ = "R-LINE"
@@ -556,6 +561,46 @@ def helpers(ctx, col):
     else:
         col.ok(R_, u.qualname, u.loc(), "the helper direction is never parallel to the normal, whatever its signs",
                "random draw" if randomised else f"tests: +normal={pos} -normal={neg} other={other}", stmt="helper-antiparallel")
+    # the routine folded exactly at one witness normal per pattern of signs / zeros / order of magnitudes of the components
+    from ..vecfold import VecEval, direction_witnesses, Unsupported as _Uns, Randomised as _Rnd, ZeroNorm as _Zero, dot as _vdot, is_vec as _is_vec
+    wit = direction_witnesses()
+    bad = und = None
+    n_ok = 0
+    for w in wit:
+        try:
+            r = VecEval({nparam: w}).run(u.node.body)
+        except _Rnd:
+            und = "randomised"
+            break
+        except _Zero as z:
+            bad = (w, f"{z}: the result is NaN")
+            break
+        except _Uns as x:
+            und = str(x)
+            break
+        except Exception as x:  # noqa: BLE001 -- the folder met something it cannot represent: no verdict
+            und = f"{type(x).__name__}: {x}"
+            break
+        if not (_is_vec(r) and len(r) == 3):
+            und = f"result {r!r} is not a 3-vector"
+            break
+        if not any(r):
+            bad = (w, "the result is the zero vector")
+            break
+        if _vdot(tuple(r), tuple(_F_(x) for x in w)) != 0:
+            bad = (w, f"the result {tuple(str(x) for x in r)} is not perpendicular to the normal")
+            break
+        n_ok += 1
+    what_t = f"for every pattern of signs, zeros and magnitude order of the normal's components ({len(wit)} exact witnesses) the result is a non-zero vector perpendicular to it"
+    if bad is not None:
+        col.bad(R_, u.qualname, u.loc(), what_t, f"normal {bad[0]}: {bad[1]} -- the closed-form sphere/frustum intersection (and with it the tree volume) is NaN for a "
+                f"compartment with that axis, and correct for the same compartment in another pose", stmt="helper-table", definite=True)
+    elif und == "randomised":
+        col.ok(R_, u.qualname, u.loc(), what_t, "helper direction drawn at random: decided by the rejection test above", stmt="helper-table")
+    elif und is not None:
+        col.unresolved(R_, u.qualname, u.loc(), what_t, f"cannot fold the routine exactly: {und}", stmt="helper-table")
+    else:
+        col.ok(R_, u.qualname, u.loc(), what_t, f"{n_ok} witnesses folded", stmt="helper-table")
     d = repo.get_def(f"{GEO}.find_sphere_line_intersection")
     asg = {}
     for s in d.node.body:
